@@ -53,12 +53,19 @@ def main():
     def on_alarm(_s, _f):
         raise Timeout()
     signal.signal(signal.SIGALRM, on_alarm)
+    shared = None
     for line in sys.stdin:
         case = json.loads(line)
         spec = permuted_spec(case['spec'], case.get('perm', 0))
         signal.setitimer(signal.ITIMER_REAL, 20)
         try:
-            kind, res = cfgspec.outcome(spec, model=case['model'])
+            builder = None
+            if case.get('shared_builder'):
+                if shared is None:
+                    from dznpy.adv_shell import Builder
+                    shared = Builder()
+                builder = shared  # one Builder instance for the whole batch
+            kind, res = cfgspec.outcome(spec, model=case['model'], builder=builder)
         except Timeout:
             kind, res = 'err', TimeoutError('build did not finish within 20 s')
         except MemoryError as exc:
